@@ -1074,6 +1074,8 @@ impl Store {
             Ok(new_holder)
         } else {
             warn!("Node {path:?} is not locked.");
+            // remove the nodes that were created while looking up the (not existing) lock
+            self.delete_lock_node(path);
             Err(WorterbuchError::KeyIsNotLocked(path.join("/")))
         }
     }
